@@ -143,6 +143,22 @@ func runC16(c *fw.Case) {
 			labels = append(labels, "single")
 		}
 	}
+	codes := []string{"", "", "canceled", "internal", "unknown", "aborted", "resource_exhausted"}
+	for i := range plans { // the status code the client sees varies too
+		plans[i][0].Code = codes[c.R.Intn(len(codes))]
+	}
+	// a job that fails transiently four times in a row must still be retried ("any bounded number of times")
+	{
+		j := jobs[c.R.Intn(len(jobs))]
+		var fl []sim.Fault
+		for a := 1; a <= 4; a++ {
+			f := kinds[c.R.Intn(len(kinds))]
+			f.Stage, f.Segment, f.Attempt, f.Code = uint32(j[0]), j[1], a, codes[c.R.Intn(len(codes))]
+			fl = append(fl, f)
+		}
+		plans = append(plans, fl)
+		labels = append(labels, "four-in-a-row")
+	}
 	multi := 6
 	if c.Tier == "thorough" {
 		multi = 30
@@ -153,7 +169,7 @@ func runC16(c *fw.Case) {
 		for x := 0; x < n; x++ {
 			j := jobs[c.R.Intn(len(jobs))]
 			f := kinds[c.R.Intn(len(kinds))]
-			f.Stage, f.Segment, f.Attempt = uint32(j[0]), j[1], 1+c.R.Intn(2)
+			f.Stage, f.Segment, f.Attempt, f.Code = uint32(j[0]), j[1], 1+c.R.Intn(2), codes[c.R.Intn(len(codes))]
 			fl = append(fl, f)
 		}
 		plans = append(plans, fl)
@@ -161,6 +177,12 @@ func runC16(c *fw.Case) {
 	}
 	if c.Tier != "thorough" && len(plans) > 26 { // keep the quick tier short: PRNG sample of the single placements
 		c.R.Shuffle(len(plans), func(i, j int) { plans[i], plans[j] = plans[j], plans[i]; labels[i], labels[j] = labels[j], labels[i] })
+		for i := range labels { // always keep the four-in-a-row plan
+			if labels[i] == "four-in-a-row" {
+				plans[0], plans[i] = plans[i], plans[0]
+				labels[0], labels[i] = labels[i], labels[0]
+			}
+		}
 		plans, labels = plans[:26], labels[:26]
 	}
 	outcomes := make([]*c16Outcome, len(plans)+1)
